@@ -833,6 +833,11 @@ func runC06(r *Run) {
 		for i := 0; i < r.Pick(1, 6); i++ {
 			c06DoorkeeperAfterChurn(r, r.Shard*6+i)
 		}
+		for i := 0; i < r.Pick(48, 480); i++ {
+			if i%r.NShards == r.Shard {
+				loadIntoCacheInUse(r, i, "C06")
+			}
+		}
 	}()
 	r.Rule("case = one sequential operation sequence (Set / SetWithTTL / Delete / loading Get / virtual-time step / tick / probe; costs 1..room and deliberately oversize; doorkeeper on/off; cost function on/off; plain and loading) checked step by step against a reference model whose occupancy never exceeds MaxSize. " +
 		"Non-trivial = the sequence wrote to a key at or near an earlier deadline of that key, or attempted an oversize cost; distinct by configuration + hash of the op-kind sequence")
